@@ -118,22 +118,30 @@ def expectedGuards (action : String) : List VAtom :=
 inductive Root | node | nic | service | application | fileSystem | folder
   /-- two auxiliary managers that carry rules of their own: `Node._os_request_manager`, `FileSystem._delete_manager` -/
   | nodeOs | fsDelete
+  /-- the domain controller (its `account` route asks for group membership) -/
+  | domain
 deriving DecidableEq, Repr
 
 def Root.show : Root → String
   | .node => "node" | .nic => "nic" | .service => "service" | .application => "application"
   | .fileSystem => "fileSystem" | .folder => "folder" | .nodeOs => "nodeOs" | .fsDelete => "fsDelete"
+  | .domain => "domain"
 
 def Root.parse : String → Option Root
   | "node" => some .node | "nic" => some .nic | "service" => some .service | "application" => some .application
   | "fileSystem" => some .fileSystem | "folder" => some .folder | "nodeOs" => some .nodeOs | "fsDelete" => some .fsDelete
-  | _ => none
+  | "domain" => some .domain | _ => none
 
 /-- COMPONENT GATES (the contract for raw routes): the rules that the edge `k` out of the root manager of ANY component of
 the given kind must carry, whatever subclass it is and whatever else the edge carries.  Every request that passes through a
 node is power-gated (`startup`: node is OFF; everything else — including keys added by subclasses such as the firewall's
 port routes — node is ON); the generic life-cycle verbs of services / applications are state-gated; NIC enable / disable;
-the file system's `folder` / `file` edges and a folder's `file` edge check existence and the deleted flag. -/
+the file system's `folder` / `file` edges and a folder's `file` edge check existence and the deleted flag.
+The table is EXACT (`C05_contract_exact`): a key it maps to `[]` — every type-specific verb (`execute`, `configure`, `ping_scan`,
+`send`, `add_user`, …), `compromise`, a service's `disable`, the file system's `create` / `restore` / `access` — carries NO
+rule of its own ("requests specified without a validator allow all", docs/source/request_system.rst; the component's state is
+the handler's business: e.g. the generic `execute` opens the application and answers by its state), and every manager that
+is not a component root carries none either. -/
 def gate : Root → Key → List VAtom
   | .node, k => if k = "startup" then [.nodeIsOff] else [.nodeIsOn]
   | .nic, k => if k = "enable" then [.nicDisabled] else if k = "disable" then [.nicEnabled] else []
@@ -149,6 +157,7 @@ def gate : Root → Key → List VAtom
   | .folder, k => if k = "file" then [.folderFileExists, .fileNotDeleted] else []
   | .nodeOs, _ => [.nodeIsOn]
   | .fsDelete, k => if k = "file" then [.fsFileExists] else if k = "folder" then [.folderExists] else []
+  | .domain, k => if k = "account" then [.groupMember] else []
 
 /-! ### templates -/
 
